@@ -361,3 +361,41 @@ func VRectExecuteInternal(rect Rect64, path Path64) (rings Paths64, ok bool) {
 	}
 	return rings, true
 }
+
+// VIntersectOpen runs the real intersectEdges on an open subject edge (hot or not) and a closed
+// edge (hot or not) that cross at a point away from any local minimum, and reports whether the
+// open edge is hot afterwards. openLeft says which of the two is the left edge.
+func VIntersectOpen(ct ClipType, fr FillRule, openHot bool, e2 VEdge, hot2 bool, openLeft bool) (hotAfter bool, ok bool) {
+	c := newClipperBase()
+	c.fillRule, c.clipType = fr, ct
+	c.hasOpenPaths = true
+	c.succeeded = true
+	eo := VEdge{WindDx: 1, PolyType: Subject, IsOpen: true}
+	var ael []*Active
+	var ao, ac *Active
+	if openLeft {
+		ael = vSynthAEL(c, []VEdge{eo, e2})
+		ao, ac = ael[0], ael[1]
+	} else {
+		ael = vSynthAEL(c, []VEdge{e2, eo})
+		ao, ac = ael[1], ael[0]
+	}
+	if openHot {
+		o := c.newOutRec()
+		o.isOpen = true
+		o.pts = newOutPt(Point64{X: -7, Y: 9}, o)
+		o.frontEdge = ao
+		ao.outrec = o
+	}
+	if hot2 {
+		o := c.newOutRec()
+		o.pts = newOutPt(Point64{X: -1, Y: 1}, o)
+		o.frontEdge = ac
+		d := vSynthActive(Subject, false, 1, 1, 0)
+		d.outrec = o
+		o.backEdge = d
+		ac.outrec = o
+	}
+	c.intersectEdges(ael[0], ael[1], Point64{X: 5, Y: 5})
+	return ao.outrec != nil, c.succeeded
+}
